@@ -62,8 +62,10 @@ Definition w_dumpv (v1 : bool) (v : xv) : cres := COk v.
 Definition w_iso (k : dkind) (s : pstr) : option xv := None.
 Definition w_fromts (k : dkind) (s : pstr) : cres := if pstr_eqb s (S "I1") then COk v_epoch1 else CErr (CERaw (S "OverflowError")).
 Definition w_strp (fmt : nat) (k : dkind) (s : pstr) : option xv := None.
-Definition w_step := hstep w_conv0 w_dumpv w_iso w_fromts w_strp.
-Definition w_run := hrun w_conv0 w_dumpv w_iso w_fromts w_strp.
+Definition w_step := hstep false w_conv0 w_dumpv w_iso w_fromts w_strp.      (* the library *)
+Definition w_run := hrun false w_conv0 w_dumpv w_iso w_fromts w_strp.
+Definition w_step_prefix := hstep true w_conv0 w_dumpv w_iso w_fromts w_strp.   (* the variant before fix commit 38c6a1a *)
+Definition w_run_prefix := hrun true w_conv0 w_dumpv w_iso w_fromts w_strp.
 
 Definition fld (n : pstr) (t : xfty) : xfield := {| xf_name := n; xf_ty := t; xf_default := None; xf_aliases := [] |}.
 Definition cls_d (c : nat) (fs : list xfield) : xcdef :=
@@ -89,7 +91,7 @@ Example memo9_library :
   snd (w_step mk_exact (w_run mk_exact hinit h_memo9) o_memo9) = HErr (HERaw (S "TypeError")).
 Proof. vm_compute. split; reflexivity. Qed.
 
-(* F73: ONE Pattern object at a date position (class 1) and a datetime position (class 2); after class 2 has set up
+(* F73 (repaired by 38c6a1a), PRE-FIX variant: ONE Pattern object at a date position (class 1) and a datetime position (class 2); after class 2 has set up
    its parser, a failing load of class 1 raises a ParseError that names datetime (alone: date) *)
 Definition h_f71 : list hop :=
   [HDefine (cls_d 1%nat [fld (S "day") (FPat 1 0 KDate)]); HDefine (cls_d 2%nat [fld (S "at") (FPat 1 0 KDt)]);
@@ -97,10 +99,15 @@ Definition h_f71 : list hop :=
 Definition o_f71 : hop := HLoad 1%nat [(S "day", v_str (S "zz"))].
 
 Lemma refuted_f71 :
-  snd (w_step mk_none (w_run mk_none hinit h_f71) o_f71) = HErr (HEParse 1%nat (S "day") (S "datetime")) /\
-  snd (w_step mk_none (w_run mk_none hinit (hdefs_all h_f71)) o_f71) = HErr (HEParse 1%nat (S "day") (S "date")) /\
+  snd (w_step_prefix mk_none (w_run_prefix mk_none hinit h_f71) o_f71) = HErr (HEParse 1%nat (S "day") (S "datetime")) /\
+  snd (w_step_prefix mk_none (w_run_prefix mk_none hinit (hdefs_all h_f71)) o_f71) = HErr (HEParse 1%nat (S "day") (S "date")) /\
   pat_consistent (h_f71 ++ [o_f71]) = false.
 Proof. vm_compute. repeat split. Qed.
+(* the library (own copy of the pattern per parser) names the position's own type on the same history *)
+Example f71_repaired :
+  snd (w_step mk_none (w_run mk_none hinit h_f71) o_f71) = HErr (HEParse 1%nat (S "day") (S "date")) /\
+  snd (w_step mk_none (w_run mk_none hinit (hdefs_all h_f71)) o_f71) = HErr (HEParse 1%nat (S "day") (S "date")).
+Proof. vm_compute. split; reflexivity. Qed.
 
 (* ---------------------------------------------------------------- why C06-8 and C06-7 break: the memo lemma again *)
 (* C06-8: the loader remembers, per FIELD, the spelling that matched last.  The remembered thing is a function of
@@ -159,7 +166,7 @@ Definition o_ex : hop := HLoad 1%nat [(S "userName", v_str (S "carol")); (S "use
 Example hist_example :
   pat_consistent (h_ex ++ [o_ex]) = true /\
   snd (w_step mk_none (w_run mk_none hinit h_ex) o_ex) = HVal 1%nat [(S "user_name", v_str (S "bob")); (S "id", v_true)] /\
-  hrun_out w_conv0 w_dumpv w_iso w_fromts w_strp mk_none hinit [HDefine (cls_d 2%nat [fld (S "user_name") (FLeaf (S "str")); fld (S "at") (FMoment KDt)]);
+  hrun_out false w_conv0 w_dumpv w_iso w_fromts w_strp mk_none hinit [HDefine (cls_d 2%nat [fld (S "user_name") (FLeaf (S "str")); fld (S "at") (FMoment KDt)]);
       HLoad 2%nat [(S "user_name", v_str (S "b")); (S "UserName", v_str (S "c")); (S "at", v_int1)]]
   = [HDone; HVal 2%nat [(S "user_name", v_str (S "c")); (S "at", v_epoch1)]].
 Proof. vm_compute. repeat split. Qed.
@@ -176,7 +183,7 @@ Section ProductProofs.
 
   Notation pstep' := (pstep conv0 dumpv iso fromts strp mk).
   Notation prun' := (prun conv0 dumpv iso fromts strp mk).
-  Notation hrun' := (hrun conv0 dumpv iso fromts strp mk).
+  Notation hrun' := (hrun false conv0 dumpv iso fromts strp mk).
 
   Lemma prun_proj h : forall s, prun' s h = (run (fst s) (lefts h), hrun' (snd s) (rights h)).
   Proof.
@@ -206,13 +213,13 @@ Section ProductProofs.
 
   (* transparency of the product: an interleaved history of both machines *)
   Theorem product_transparent h o :
-    safe_history (lefts (h ++ [o])) = true -> pat_consistent (rights (h ++ [o])) = true ->
+    safe_history (lefts (h ++ [o])) = true ->
     snd (pstep' (prun' (init, hinit) h) o) = snd (pstep' (prun' (init, hinit) (pdefs_all h)) o).
   Proof.
-    intros HS HP. rewrite !prun_proj. cbn [fst snd]. rewrite lefts_defs, rights_defs.
-    rewrite lefts_app in HS. rewrite rights_app in HP.
+    intros HS. rewrite !prun_proj. cbn [fst snd]. rewrite lefts_defs, rights_defs.
+    rewrite lefts_app in HS.
     destruct o as [a | b]; cbn [pstep fst snd]; f_equal.
     - cbn [lefts flat_map app] in HS. apply transparent. exact HS.
-    - cbn [rights flat_map app] in HP. apply (hist_transparent_partial conv0 dumpv iso fromts strp mk Hfac). exact HP.
+    - apply (hist_transparent_full conv0 dumpv iso fromts strp mk Hfac).
   Qed.
 End ProductProofs.
